@@ -30,7 +30,8 @@
 (*                                                                         *)
 (* DelegateToValidatorSet(d, x)                                             *)
 (*  D1 is accepted ONLY IF d has a preference or, without one, an existing  *)
-(*     staking position, and d's balance covers x; for x > 0 it is ALWAYS   *)
+(*     staking position, and d's balance (with the pending rewards, which   *)
+(*     staking pays out first) covers x; for 0 < x <= balance it is ALWAYS  *)
 (*     accepted then.                                                       *)
 (*  D2 With a preference every validator of the list except the last        *)
 (*     receives EXACTLY floor(weight * x) and the last one the rest; without*)
@@ -58,7 +59,10 @@
 (*  R1 is accepted ONLY IF the new list is valid as in S2, d has a          *)
 (*     preference or a staking position ("existing set"), d is delegated to *)
 (*     every validator of the existing set, and no validator that has to    *)
-(*     give up stake is the target of an unfinished redelegation of d.      *)
+(*     give up stake is the target of an unfinished redelegation of d; it   *)
+(*     is ALWAYS accepted when the list is as S2 demands for "always", d    *)
+(*     has stake with every validator of the existing set and none of them  *)
+(*     is the target of an unfinished redelegation of d.                    *)
 (*  R2 The preference becomes the new list (rounded as in S3); d's total    *)
 (*     stake is unchanged EXACTLY, nothing is unbonded, the balance is      *)
 (*     unchanged; ONLY validators of the existing set give up stake, ONLY   *)
@@ -204,6 +208,9 @@ RewardsOK(d, pn) ==
 PaidRow(d, pn) == [v \in Vals |-> IF pn[d][v] = Z THEN NDiv(pend[d][v], RUnit) ELSE Z]
 Paid(d, pn) == SumN(PaidRow(d, pn))
 
+\* the whole coins pending for d: a staking operation pays them out before it takes the coins it stakes
+Payable(d) == SumN([v \in Vals |-> NDiv(pend[d][v], RUnit)])
+
 Inflow(d, x) == gh' = [gh EXCEPT !.in[d] = NAdd(@, x)]
 
 Refused(c) ==
@@ -257,7 +264,7 @@ Touched(d) == IF pref[d] # <<>> THEN PrefVals(pref[d]) ELSE {v \in Vals : rec[d]
 Delegate(c, o) ==
     LET d == c.d  x == c.x IN
     /\ Req("D1 accepted only with preference or position", c.ok => Basis(d))
-    /\ Req("D1 accepted only if the balance covers it", c.ok => NLe(x, bal[d]))
+    /\ Req("D1 accepted only if the balance covers it", c.ok => NLe(x, NAdd(bal[d], Payable(d))))
     /\ IF c.ok
        THEN LET nd == [v \in Vals |-> NAdd(del[d][v], o.inc[v])] IN
             /\ SplitOK(d, x, o.inc)
@@ -424,7 +431,7 @@ DirectStake(c, o) ==
     LET d == c.d  v == c.v IN
     IF c.ok
     THEN LET nd == [del[d] EXCEPT ![v] = NAdd(@, c.x)] IN
-         /\ Pos(c.x) /\ NLe(c.x, bal[d])
+         /\ Pos(c.x) /\ NLe(c.x, NAdd(bal[d], Payable(d)))
          /\ Req("C1 rewards", RewardsOK(d, o.pn))
          /\ Req("delegation records", RecOK(d, o.rec, {v}, nd))
          /\ del' = [del EXCEPT ![d] = nd]
